@@ -144,9 +144,17 @@ func relayouts(r *rand.Rand, src string) []M {
 		return ""
 	}) + " ; trailing, no newline"})
 	// formatter output, once and three times
-	f1 := eval.IndentByParentheses(src)
-	out = append(out, M{"how": "format1", "text": f1})
-	out = append(out, M{"how": "format3", "text": eval.IndentByParentheses(eval.IndentByParentheses(f1))})
+	p := safely(func() M {
+		f1 := eval.IndentByParentheses(src)
+		out = append(out, M{"how": "format1", "text": f1})
+		out = append(out, M{"how": "format3", "text": eval.IndentByParentheses(eval.IndentByParentheses(f1))})
+		return nil
+	})
+	if p != nil {
+		// the formatter panicked: recorded as a re-layout that cannot be compiled (the fmt line of the
+		// same source records the panic itself)
+		out = append(out, M{"how": "format-panic", "text": "(formatter panicked)"})
+	}
 	return out
 }
 
@@ -229,10 +237,19 @@ func famLayout() {
 			}
 		}
 	}
+	// (a4) deep nesting (indentation grows with depth)
+	for _, d := range []int{31, 32, 33, 40, 70, 130} {
+		emitFmt(strings.Repeat("(", d) + "x" + strings.Repeat(")", d))
+		emitFmt(strings.Repeat("(not ", d) + "x" + strings.Repeat(")", d))
+		emitFmt(strings.Repeat("(f [", d) + "1" + strings.Repeat("])", d) + " ; c")
+	}
 	// (b) valid expressions with layout-sensitive string literals, re-laid-out
 	g := &gen{r: r, c: GenCfg{Custom: true, Alias: true, MaxKids: 4, Lists: true, Strings: true, Consts: true}}
 	for i := 0; i < *fN/4; i++ {
 		t, _ := g.tree("b", 1+r.Intn(*fDepth))
+		if i%25 == 24 {
+			t = g.spine("b", 30+r.Intn(20)) // deep enough for any fixed indentation budget
+		}
 		if len(t.Kids) == 0 {
 			continue
 		}
